@@ -566,6 +566,9 @@ pub fn minimise(t: &Trace, want: &Viol, budget: usize) -> (Trace, Viol, usize) {
                     continue;
                 }
                 let mut cands = vec![0u32];
+                if cur >= 100_000 {
+                    cands.push(100_000);
+                }
                 if cur >= 1000 {
                     cands.push(1000);
                 }
